@@ -456,6 +456,7 @@ func checkIDLayouts(rep *mc.Reporter, root, tier string, allQueries []parsedQuer
 		}
 	}
 	A, B := ip4(10, 0, 0, 1), ip4(10, 0, 0, 2)
+	capNames := []string{"b.pcap", "c.pcap", "d.pcap", "e.pcap"}
 	type stackCase struct {
 		d    dims
 		mask []int // per id: set of files holding a version
@@ -509,8 +510,12 @@ func checkIDLayouts(rep *mc.Reporter, root, tier string, allQueries []parsedQuer
 				pl := fmt.Sprintf("id%d-file%d-%s", id, f, strings.Repeat("x", f))
 				files[f].streams = append(files[f].streams, &ref.StreamSpec{Name: fmt.Sprintf("s%d.f%d", id, f), ID: uint64(id), Client: A, Server: B,
 					CPort: uint16(1000 + id), SPort: 80, Start: start,
+					// the first packet of every version of a stream is the same packet of one capture; the later packets
+					// come from captures that depend on file and id, so that the files of a stack know different
+					// capture files, some of them only through versions that are superseded
 					Pkts: []ref.PktSpec{{Dir: ref.DirC2S, OffsetUs: 0, File: "a.pcap", Index: uint64(id * 10), Data: []byte(pl)},
-						{Dir: ref.DirS2C, OffsetUs: int64(1000 * (f + 1)), File: "b.pcap", Index: uint64(id*10 + f), Data: []byte(strings.Repeat("r", f+1))}}})
+						{Dir: ref.DirS2C, OffsetUs: int64(1000 * (f + 1)), File: capNames[(id+f)%len(capNames)], Index: uint64(id*10 + f), Data: []byte(strings.Repeat("r", f+1))},
+						{Dir: ref.DirC2S, OffsetUs: int64(2000 * (f + 1)), File: capNames[(2*id+f+1)%len(capNames)], Index: uint64(1)<<32*uint64(f%2) + uint64(id), Data: []byte("t")}}})
 			}
 			files[f].name = "{" + strings.Join(ids, ",") + "}"
 			desc = append(desc, files[f].name)
